@@ -993,7 +993,7 @@ def regen_validators(ctx):
     import os, shutil, subprocess, sys
     import runner
     V = runner.V
-    scratch = os.path.join(V, "build", ctx.prop_id, "gen")
+    scratch = os.path.join(getattr(ctx, "scratch", os.path.join(V, "build", ctx.prop_id)), "gen")
     os.makedirs(scratch, exist_ok=True)
     gen_v = os.path.join(scratch, "Gen_c20_validators.v")
     for stem in (gen_v[:-2], os.path.join(scratch, "C20_Equiv")):
